@@ -87,3 +87,7 @@ package rsyncd
 //@ func (*rsyncd.Server).HandleDaemonConn
 //@   at[C19] (*rsyncd.Server).handleConn: assert [acl-checked] ghost.aclOK && ghost.aclBase == base(module.ACL) && ghost.aclLen == len(module.ACL) && ghost.aclAddr == conn.name
 //@   at[C19] (*rsyncd.Server).handleConn: assert [requested-module] module.Name == requestedModule
+
+// C14: the daemon maps the client's options onto the receiver the same way the client does.
+//@ func (*rsyncd.Server).handleConnReceiver
+//@   at[C14] (*receiver.Transfer).ReceiveFileList: assert [options-mapped-one-to-one] arg0.Opts.PreserveUid == (opts.preserve_uid != 0) && arg0.Opts.PreserveGid == (opts.preserve_gid != 0) && arg0.Opts.PreserveLinks == (opts.preserve_links != 0) && arg0.Opts.PreservePerms == (opts.preserve_perms != 0) && arg0.Opts.PreserveDevices == (opts.preserve_devices != 0) && arg0.Opts.PreserveSpecials == (opts.preserve_specials != 0) && arg0.Opts.PreserveTimes == (opts.preserve_mtimes != 0) && arg0.Opts.AlwaysChecksum == (opts.always_checksum != 0) && arg0.Opts.IgnoreTimes == (opts.ignore_times != 0) && arg0.Opts.DryRun == (opts.dry_run != 0) && arg0.Opts.DeleteMode == (opts.delete_mode != 0)
